@@ -37,6 +37,7 @@ RULE_TEXT = (
     'command rejected the evolution (any listed reason) or executed SQL; '
     'distinct = (perturbation kind, mutated op, outcome class, shape digest '
     'of the models). Probes count each rejection reason.')
+RULE_TEXT += ' 4%: legacy databases whose stored unique_together was never applied, with and without the resolving ChangeMeta.'
 ASSUMPTIONS = [
     'the database is initialised at V0 by an earlier successful run, so '
     '"no SQL runs" is literal: every non-SELECT, non-PRAGMA, non-'
